@@ -255,6 +255,16 @@ class World:
         self.lines.append(('repl %d %d %d' % (i, old, new), m.split('|')[0], r))
         return m.split('|')[0], r
 
+    def replx(self, i, sel_name, index, new):
+        """replace_child(callable, new, index): sel_name None = every child matches"""
+        p, n = self.objs[i], self.objs[new]
+        f = (lambda ch: True) if sel_name is None else (lambda ch: ch.name == sel_name)
+        (s, e), out = quiet(p.replace_child, f, n, index)
+        r = 'ok' if s == 'ok' else exc_enum(e, 'repl')
+        m = self._m('replx %d %d %d %d %d' % (i, 0 if sel_name is None else ix(sel_name), index, new, ix(n.name)))
+        self.lines.append(('replx %d %s %d %d' % (i, sel_name, index, new), m, r))
+        return m, r
+
     def dotx(self, i, key, nid, value=None, inst=None):
         """obj.xml_<x> = value | None | element instance"""
         o = self.objs[i]
@@ -480,6 +490,17 @@ def doc_case(drv, rnd, cls=None, depth=2, mixed_chk=False, mutate=True, copy=Fal
                     if rnd.random() < 0.6:
                         w.rm(i, inv[id(ch)])
                         w.obs(i)
+                elif id(ch) in inv and rnd.random() < 0.3:
+                    # the selector form: replace_child(callable, new, index)
+                    j = nid[0]; nid[0] += 1
+                    kids = o.get_children(ordered=False)
+                    ncls = type(rnd.choice(kids)) if rnd.random() < 0.9 else rnd.choice(ALL)
+                    m0, r0 = w.newe(j, ncls, True, pick_value(ncls, rnd, True), pick_attrs(ncls, rnd, True, 0))
+                    if r0 == 'ok' and m0 == 'ok':
+                        w.replx(i, None if rnd.random() < 0.6 else rnd.choice(kids).name, rnd.choice([0, 0, 1, 1, 2, 3, -1, -2, 7]), j)
+                        w.obs(i)
+                        w.tostr(i)
+                        ids[:] = list(w.objs)
                 elif id(ch) in inv:
                     j = nid[0]; nid[0] += 1
                     ncls = type(ch) if rnd.random() < 0.85 else rnd.choice(ALL)
